@@ -42,7 +42,15 @@ def runner_of(ctx, an: Anchors):
                 m = ctx.p.method(an.Context, tgt.attr)
                 if m is not None:
                     # does it pop / iterate the teardown stack?
-                    if any(isinstance(x, ast.Attribute) and x.attr == an.teardown_stack for x in walk_own(m.node)):
+                    touches = any(isinstance(x, ast.Attribute) and x.attr == an.teardown_stack for x in walk_own(m.node))
+                    if not touches:
+                        # ... or hands the draining to a helper method of the context
+                        for x in walk_own(m.node):
+                            if isinstance(x, ast.Call) and isinstance(x.func, ast.Attribute) and isinstance(x.func.value, ast.Name) and x.func.value.id == "self":
+                                h = ctx.p.method(an.Context, x.func.attr)
+                                if h is not None and any(isinstance(y, ast.Attribute) and y.attr == an.teardown_stack for y in walk_own(h.node)):
+                                    touches = True
+                    if touches:
                         cands.append((m, n, call, nm))
     if not cands:
         raise AnalysisError("anchor-missing teardown runner (no exit-stack registration in Context.__aenter__ that touches the teardown stack)")
@@ -63,7 +71,21 @@ def run(ctx) -> None:
 
     # ------------------------------------------------------------------ R1 drain loop
     pops = [(n, m) for n, m in a.func_mutations(runner) if m.path == ("self", stack) and m.kind == "call:pop"]
-    for_loops = [n for n in walk_own(runner.node) if isinstance(n, (ast.For, ast.AsyncFor)) and any(isinstance(x, ast.Attribute) and x.attr == stack for x in ast.walk(n.iter))]
+    def _iterates_stack(lp) -> bool:
+        if any(isinstance(x, ast.Attribute) and x.attr == stack for x in ast.walk(lp.iter)):
+            return True
+        for nd in cfg.live_nodes():
+            if nd.kind == "for_iter" and nd.ast is lp:
+                cl = rd.closure_at(nd.id, lp.iter)
+                if any(x.endswith("." + stack) for x in cl.attrs):
+                    return True
+                for c_ in cl.calls:
+                    cal = a.callee(runner, c_)
+                    if cal.kind == "func" and cal.func.cls is an.Context and any(isinstance(y, ast.Attribute) and y.attr == stack for y in walk_own(cal.func.node)):
+                        return True
+        return False
+
+    for_loops = [n for n in walk_own(runner.node) if isinstance(n, (ast.For, ast.AsyncFor)) and _iterates_stack(n)]
     for lp in for_loops:
         rep.violate("C01.R1", runner, lp, f"teardown iterates `{ast.unparse(lp.iter)}` (a snapshot / the list itself) instead of draining the live stack: callbacks registered during teardown are dropped (or order is wrong)")
     head = None
